@@ -11,7 +11,10 @@
 use crate::gw::*;
 use crate::its::*;
 use crate::oracle::*;
+use crate::probes::miniapp::MiniApp;
 use crate::probes::target::{ProbeTarget, ProbeTargetClient};
+use axelar_gateway::executable::AxelarExecutableClient;
+use example::Example;
 use crate::report::Report;
 use crate::rng::Rng;
 use crate::tok::*;
@@ -40,6 +43,17 @@ pub struct LegacyWorld {
     pub b: Address,
     pub c: Address,
     pub allowance_expiry: u32,
+    /// applications on the gateway: (name, address, kind of the event that shows they acted,
+    /// (delivered message, payload), (approved but undelivered message, payload))
+    pub apps: Vec<(&'static str, Address, &'static str, (MMessage, Vec<u8>), (MMessage, Vec<u8>))>,
+}
+
+pub fn deliver(u: &mut U, app: &Address, m: &MMessage, payload: &[u8]) -> CallOut<()> {
+    let (app, m, payload) = (app.clone(), m.clone(), payload.to_vec());
+    u.call(Auth::Nobody, &move |env: &Env| {
+        let c = AxelarExecutableClient::new(env, &app);
+        flat(c.try_execute(&sstr(env, &m.source_chain), &sstr(env, &m.message_id), &sstr(env, &m.source_address), &sbytes(env, &payload)))
+    })
 }
 
 /// The fixed history. None when some step is refused (then the current tree is broken in a way
@@ -81,6 +95,26 @@ pub fn script() -> Option<LegacyWorld> {
         Ok(true) => w.g.model.apply_consume(&m_done),
         _ => return None,
     }
+    // two applications on the gateway, each with one delivered and one pending message
+    let gsx = w.gs.clone();
+    let example = w.u.env.register(Example, (&w.g.addr, &gsx));
+    let mini = w.u.env.register(MiniApp, (&w.g.addr,));
+    let mut apps = Vec::new();
+    for (name, addr, kind) in [("example", example, "executed"), ("miniapp", mini, "mini_executed")] {
+        let mk = |n: u8| {
+            let payload = format!("legacy payload {} for {}", n, name).into_bytes();
+            (MMessage { source_chain: b"Ethereum-X".to_vec(), message_id: format!("Legacy-{}-{}", name, n).into_bytes(), source_address: b"0xSrcAddr".to_vec(), contract: sc_addr(&addr), payload_hash: keccak(&payload) }, payload)
+        };
+        let (done, pending) = (mk(1), mk(2));
+        if !w.g.approve_honest(&mut w.u, &w.ring, &[done.0.clone(), pending.0.clone()]) {
+            return None;
+        }
+        if !deliver(&mut w.u, &addr, &done.0, &done.1).ok() {
+            return None;
+        }
+        w.g.model.apply_consume(&done.0);
+        apps.push((name, addr, kind, done, pending));
+    }
     // operators: op1 is a member, op2 was one
     let ops = w.u.env.register(AxelarOperators, (&owner,));
     let (op1, op2) = (w.u.principal(), w.u.principal());
@@ -109,7 +143,7 @@ pub fn script() -> Option<LegacyWorld> {
         });
     }
     w.u.skip_events();
-    Some(LegacyWorld { w, canon, canon_id, app, m_done, m_pending, ops, op1, op2, target, tok, minter, a, b, c, allowance_expiry })
+    Some(LegacyWorld { w, canon, canon_id, app, m_done, m_pending, ops, op1, op2, target, tok, minter, a, b, c, allowance_expiry, apps })
 }
 
 /// `vh legacy-make`: run the script against the tree and record the ledger.
@@ -191,7 +225,9 @@ pub fn run(rep: &mut Report, prop: &str) {
                 }
                 return;
             }
-            // a chain trusted by the pinned version can be removed, and is then no longer honoured
+            // a chain trusted by the pinned version can be removed (also after an attempt to trust it
+            // once more), and is then no longer honoured
+            let _ = l.w.do_set_trusted(b"Avalanche-Y", true, Auth::Only(vec![owner.clone()]));
             let o = l.w.do_set_trusted(b"Avalanche-Y", false, Auth::Only(vec![owner]));
             rep.eval("legacy-state", &format!("legacy|remove-trust|{}", o.ok()), true);
             if !o.ok() {
@@ -230,7 +266,14 @@ pub fn run(rep: &mut Report, prop: &str) {
             l.w.fund_gas(&user, 10);
             let gas = l.w.gas.addr.clone();
             let its = l.w.its.clone();
-            for (dest, want) in [(&b"Old-Z"[..], false), (&b"Polygon-never"[..], false), (&b"Ethereum-X"[..], true)] {
+            // a chain the pinned version trusted is trusted once more (refused or not) and removed
+            let owner = l.w.owner.clone();
+            let _ = l.w.do_set_trusted(b"Avalanche-Y", true, Auth::Only(vec![owner.clone()]));
+            if !l.w.do_set_trusted(b"Avalanche-Y", false, Auth::Only(vec![owner])).ok() {
+                viol(rep, "trust-removal-refused", "remove_trusted_chain for a chain the pinned version trusted".into());
+                return;
+            }
+            for (dest, want) in [(&b"Old-Z"[..], false), (&b"Avalanche-Y"[..], false), (&b"Polygon-never"[..], false), (&b"Ethereum-X"[..], true)] {
                 let custody = balance(&mut l.w.u, &canon.addr, &its);
                 let o = if prop == "C05" {
                     l.w.do_transfer(&user, &l.canon_id.clone(), dest, b"0xdest", 10, None, &gas, 1, Auth::Only(vec![user.clone()])).res.map(|_| ())
@@ -318,6 +361,31 @@ pub fn run(rep: &mut Report, prop: &str) {
                 }
                 if let Some(d) = l.w.g.check_lookups(&mut l.w.u) {
                     viol(rep, "lookups-after-continuation", d);
+                }
+            }
+        }
+        "C16" => {
+            let apps = l.apps.clone();
+            for (name, addr, kind, done, pending) in apps {
+                // whatever is relayed again, the delivered message is not acted on twice
+                let _ = l.w.g.approve_honest(&mut l.w.u, &l.w.ring, &[done.0.clone(), pending.0.clone()]);
+                let again = deliver(&mut l.w.u, &addr, &done.0, &done.1);
+                let acted = again.events.iter().filter(|e| e.kind() == kind).count();
+                rep.eval("legacy-state", &format!("legacy|{}|redeliver|{}", name, again.ok()), true);
+                if again.ok() || acted != 0 {
+                    viol(rep, &format!("delivered-message-acted-on-again:{}", name), format!("ok={} effects={}", again.ok(), acted));
+                    return;
+                }
+                let first = deliver(&mut l.w.u, &addr, &pending.0, &pending.1);
+                let acted = first.events.iter().filter(|e| e.kind() == kind).count();
+                if !first.ok() || acted != 1 {
+                    viol(rep, &format!("approved-message-not-deliverable:{}", name), format!("ok={} effects={}: {:?}", first.ok(), acted, first.res));
+                    return;
+                }
+                let second = deliver(&mut l.w.u, &addr, &pending.0, &pending.1);
+                if second.ok() {
+                    viol(rep, &format!("message-delivered-twice:{}", name), "the pending message of the recorded state was delivered twice".into());
+                    return;
                 }
             }
         }
